@@ -258,10 +258,52 @@ pub fn layout_commented(ps: &[Piece]) -> String {
 }
 
 /// Distinct label names for `n` identities (valid labels whatever the stack flag).
+
+pub const KEYWORDS: &[&str] = &[
+    "add", "and", "br", "brnzp", "brnz", "brzp", "brnp", "brn", "brz", "brp", "jmp", "jsr", "jsrr", "ld", "ldi", "ldr",
+    "lea", "not", "ret", "rti", "st", "sti", "str", "pop", "push", "call", "rets", "trap", "getc", "out", "puts", "in",
+    "putsp", "halt", "putn", "reg",
+];
+
+/// Label names that look like keywords with something stuck on: `xout`, `Xret`, `0xhalt`,
+/// `_add`, `halt1`, … — every one a plain label (not a literal, register or keyword).
+pub fn lookalike_names() -> Vec<String> {
+    let mut v = Vec::new();
+    let is_lit = |n: &str| {
+        let l = n.to_ascii_lowercase();
+        let body = l.strip_prefix("0x").or_else(|| l.strip_prefix('x'));
+        match body {
+            Some(b) => {
+                let b = b.strip_prefix('-').unwrap_or(b);
+                !b.is_empty() && b.chars().all(|c| c.is_ascii_hexdigit())
+            }
+            None => false,
+        }
+    };
+    for k in KEYWORDS {
+        for pre in ["x", "X", "0x", "0X", "_", "r", "R", "xx", "x_"] {
+            for up in [false, true] {
+                let k2 = if up { k.to_ascii_uppercase() } else { k.to_string() };
+                v.push(format!("{}{}", pre, k2));
+            }
+        }
+        for suf in ["_", "1", "x", "q"] {
+            v.push(format!("{}{}", k, suf));
+        }
+    }
+    v.retain(|n| !is_lit(n) && !KEYWORDS.contains(&n.to_ascii_lowercase().as_str()));
+    v.sort();
+    v.dedup();
+    v
+}
+
 pub fn label_names(rng: &mut Rng, n: usize) -> Vec<String> {
     let mut names: Vec<String> = Vec::new();
     while names.len() < n {
-        let cand = if names.len() < 24 && rng.chance(2, 3) {
+        let cand = if rng.chance(1, 8) {
+            let l = lookalike_names();
+            l[rng.below(l.len() as u64) as usize].clone()
+        } else if names.len() < 24 && rng.chance(2, 3) {
             rng.pick(LABEL_POOL).to_string()
         } else {
             format!("{}{}", rng.pick(&["L", "lbl_", "t", "X_", "zz", "Q", "_"]), rng.below(100_000))
@@ -849,6 +891,18 @@ fn c01(cx: &mut Ctx) {
             }
         }
     }
+    // (g') keyword look-alike labels
+    let la = lookalike_names();
+    for (i, name) in la.iter().enumerate() {
+        if let Some(mut rng) = cx.mine() {
+            let items = vec![
+                It::Stmt(Some(0), St::AddImm(0, 0, 1)),
+                It::Stmt(None, pc_form(i % 7, 3, Loc::Label(0))),
+                It::Stmt(Some(1), St::Named(5)),
+            ];
+            cx.go(&mut rng, "lookalike-label", true, AProg { items, names: vec![name.clone(), la[(i + 7) % la.len()].clone()] }, Spell::Any, 1);
+        }
+    }
     // (h) random programs, each under TWO random layouts
     let total = if thorough { 100_000 } else { 2_400 };
     for _ in 0..total {
@@ -1032,6 +1086,23 @@ fn c04(cx: &mut Ctx) {
                     };
                     cx.go(&mut rng, "labels", true, AProg { items, names }, Spell::Any, 1);
                 }
+            }
+        }
+    }
+    // (c') keyword look-alike labels (`xout`, `Xret`, `0xhalt`, `_add`, `halt1`, …): defined
+    //      before a statement, referenced, and as an unreferenced label in front of a statement
+    let la = lookalike_names();
+    for (i, name) in la.iter().enumerate() {
+        for stack in [false, true] {
+            if let Some(mut rng) = cx.mine() {
+                let form = i % 8;
+                let form = if form == 7 && !stack { 0 } else { form };
+                let items = vec![
+                    It::Stmt(Some(0), St::AddImm(0, 0, 1)),
+                    It::Stmt(None, pc_form(form, 3, Loc::Label(0))),
+                    It::Stmt(Some(1), St::Named(5)),
+                ];
+                cx.go(&mut rng, "lookalike-label", stack, AProg { items, names: vec![name.clone(), la[(i + 7) % la.len()].clone()] }, Spell::Any, 1);
             }
         }
     }
